@@ -197,10 +197,10 @@ class PathRun:
         return ''.join(out)
 
     # -- obligations ------------------------------------------------------
-    def prove(self, goal, kind, label, lineno=None, detail='', assume=True, focus=None):
+    def prove(self, goal, kind, label, lineno=None, detail='', assume=True, focus=None, part=0):
         """record an obligation pc => goal; afterwards assume goal (unless it is an end-of-path goal: piling proved
         quantified goals onto the path condition only makes the remaining ones harder)."""
-        key = (kind, label, lineno, tuple(self.taken))
+        key = (kind, label, lineno, tuple(self.taken), part)    # part: index of the conjunct when one clause is proved conjunct-wise
         if isinstance(goal, bool):
             goal = z3.BoolVal(goal)
         if key not in self.d.ob_cache:
@@ -213,7 +213,20 @@ class PathRun:
                 s.add(z3.Not(goal))
                 s.add(*ground_axioms(self.pc + [goal]))
                 t0 = time.time()
-                r = str(s.check())
+                # first from the quantifier-free hypotheses alone (sound: fewer hypotheses): with the ground hint instances
+                # added at lookups this is usually enough, and the solver is far more predictable without quantifiers
+                r = None
+                qf = [c for c in self.pc if not has_quantifier(c)]
+                if len(qf) < len(self.pc):
+                    s0 = self._solver(min(3000, max(1000, self.d.budget.timeout_ms // 4)))
+                    s0.add(*qf)
+                    s0.add(z3.Not(goal))
+                    s0.add(*ground_axioms(qf + [goal]))
+                    if str(s0.check()) == 'unsat':
+                        r = 'unsat'
+                        detail = (detail + ' (from the quantifier-free hypotheses)').strip()
+                if r is None:
+                    r = str(s.check())
                 if r == 'unknown' and self.pc_tags:
                     # retry with fewer hypotheses (sound: dropping assumptions only weakens what is known): first only the
                     # invariant conjunct with the same index as the goal, then leaving out one tagged conjunct at a time
@@ -254,6 +267,15 @@ class PathRun:
             self.d.obligations.append(ob)
         if self.d.ob_cache[key].verdict != 'failed' and assume:
             self.pc.append(goal)
+
+    def dict_hint(self, d, k):
+        """add the ground instance of a comprehension dict's witness axiom at a looked-up key"""
+        if getattr(d, 'inst', None) is None:
+            return
+        key = ('dict-inst', d.has.get_id(), k.get_id())
+        if key not in self.gcache:
+            self.gcache[key] = (d.has, k)
+            self.pc.append(d.inst(k))
 
     def fail_path(self, kind, label, lineno=None, detail=''):
         """the current path itself is a violation (e.g. an unpermitted exception escapes)."""
